@@ -256,7 +256,7 @@ func (C10Mon) After(w *core.World, st *core.Step) {
 		allKnown := true
 		for _, a := range pa.Pos {
 			name := a
-			if strings.ToLower(a) == "head" {
+			if a == "HEAD" { // exactly: "head" and "Head" are ordinary branch names
 				name = pre.Head
 			} else if !c10NameInDomain(a) {
 				return
